@@ -39,8 +39,12 @@ def script_for(eng, ob, get_values=(), keep_quantifiers=True, extra_terms=True, 
     asserts = (relevant(eng, ob) if sliced else list(ob.pc)) + [smt.Not(ob.goal)]
     tag = None
     if focused:
-        # keep only the universally quantified hypotheses that stem from the clause being proved
-        parts = ob.oid.split("#", 1)[1].split(".")
+        # keep only the invariants that the clause being proved needs: by default the invariant of the same
+        # name, or the ones named in the contract's hints (dropping hypotheses keeps 'unsat' a proof)
+        parts = ob.oid.split("#", 1)[1].split("@")[0].split(".")
+        clause = parts[1] if len(parts) > 1 else parts[0]
+        keep = set(eng.contract.hints.get(clause, [clause])) | {"bounds", "pos"}
+        asserts = [a for a in asserts[:-1] if eng.ctx.fact_tag.get(a.s) is None or eng.ctx.fact_tag[a.s] in keep] + [asserts[-1]]
         tag = parts[1] if parts[0].startswith("loop") else None
     txt = eng.ctx.script(asserts, get_values=get_values, inst_terms=list(ob.skolems),
                          keep_quantifiers=keep_quantifiers, extra_terms=extra_terms, only_tag=tag, unfold=unfold)
@@ -63,6 +67,7 @@ def discharge(eng, obligations, timeout_s=10, jobs=None, solvers=None):
                    dict(keep_quantifiers=False, extra_terms=False, unfold=True),
                    dict(keep_quantifiers=False, extra_terms=False, sliced=True),
                    dict(keep_quantifiers=False, extra_terms=False, focused=True),
+                   dict(keep_quantifiers=False, extra_terms=False, focused=True, unfold=True),
                    dict(keep_quantifiers=False, extra_terms=False), dict(keep_quantifiers=False, extra_terms=True),
                    dict(keep_quantifiers=True, extra_terms=True)):
             txt = script_for(eng, ob, **kw)
